@@ -74,6 +74,9 @@ RULE = ('cases = histories (container, n1<=n2, save_frequency, spec2 in {same,+r
         'extension and an unrelated file next to the output file must stay byte-identical through run and restart, '
         'in the presence of a leftover <output>.<random>.tmp that may be removed or left; both batches resume from '
         'their own saved prefix), '
+        'plus "splitting" cases (splitting-method batches with 1, 2, 3 error rates: run complete / stopped after '
+        'every trial, restart with fresh objects; n_runs == requested == length of every per-rate list, saved '
+        'prefix kept; a restart that raises is a violation), '
         'plus "grow" cases (two sizes x two rates grown by a rate / a size that precedes existing simulations in '
         'expansion order), "pause" cases (KeyboardInterrupt inside every trial - before generate and before decode '
         '- and at every trial boundary, then run() again on the same object), '
@@ -846,6 +849,8 @@ def cases(tier, seed):
                             'grown': [variant], 'n_pairs': b['n_pairs'], 'tier': tier})
             out.append({'family': 'neighbours', 'container': container, 'save_frequency': f,
                         'n_pairs': b['n_pairs'], 'tier': tier})
+            out.append({'family': 'splitting', 'container': container, 'save_frequency': f,
+                        'rates': SPLITTING_RATES, 'n_pairs': SPLITTING_PAIRS, 'tier': tier})
         for name in NAME_FORMS:
             out.append({'family': 'names', 'container': 'name:' + name, 'save_frequency': f, 'base': 'base',
                         'grown': ['same', 'rate'], 'refusal_ok': True, 'n_pairs': b['n_pairs'], 'tier': tier})
@@ -883,6 +888,8 @@ def eval_case(case):
             return _eval_grow(case, sb)
         if case['family'] == 'neighbours':
             return _eval_neighbours(case, sb)
+        if case['family'] == 'splitting':
+            return _eval_splitting(case, sb)
         if case['family'] == 'pause':
             return _eval_pause(case, sb)
         return _eval_depth1(case, sb)
@@ -1215,6 +1222,164 @@ def _eval_neighbours(case, sb):
                 acc.res['samples'] = [{'family': 'neighbours', 'this_batch': out_rel, 'history': hist,
                                        'save_frequency': f, 'stopped_at': st['where'],
                                        'verdict': outcome, 'other_batch_verdict': outcome_o}]
+    return acc.finish()
+
+
+# ----------------------------------------------------------------------------- splitting-method batches
+SPLITTING_RATES = [[0.2], [0.2, 0.1], [0.3, 0.1, 0.2]]
+SPLITTING_PAIRS = [[3, 3], [3, 5]]
+# On the tree this family was written against, every restart of a splitting batch raised before it resumed
+# (D25: ValueError in _find_current_simulation for two or more rates, AttributeError on append for one rate);
+# fixed in /repo (c8c50ea, known_findings.json).  A raising restart of a splitting batch is a violation.
+SPLITTING_RESTART_RAISES_IS_VIOLATION = True
+
+
+def splitting_spec(rates, k_init=2):
+    spec = make_spec([[2, 2]], rates)
+    spec['ranges']['method'] = {'name': 'splitting', 'parameters': {'n_init_runs': k_init}}
+    return spec
+
+
+def run_splitting(root, container, rates, n, f, seed, stop_after=None):
+    """One execution of a splitting-method batch; optional stop (no handler sees it) after `stop_after` calls of
+    simulation.run.  Returns {'raised', 'hard', 'executed': [per simulation], 'mem': [...]}."""
+    from panqec.simulation import read_input_dict
+    out = os.path.join(root, out_name(container))
+    rec = {'raised': None, 'hard': False, 'executed': [], 'mem': []}
+    calls = [0]
+    old_stdout, state = sys.stdout, _np.random.get_state()
+    sys.stdout = _Null()
+    _np.random.seed(seed)            # the Metropolis chain draws from numpy's global generator
+    batch = None
+    try:
+        with DetEnv([0]):
+            try:
+                batch = read_input_dict(copy.deepcopy(splitting_spec(rates)), output_file=out, save_frequency=f)
+                for i, sim in enumerate(batch):
+                    rec['executed'].append(0)
+
+                    def run(k, _orig=sim.run, _i=i):
+                        r = _orig(k)
+                        rec['executed'][_i] += k
+                        calls[0] += 1
+                        if stop_after is not None and calls[0] == stop_after:
+                            raise E.HardStop('stop after %d trials' % calls[0])
+                        return r
+                    sim.run = run
+                batch.run(n)
+            except E.HardStop:
+                rec['hard'] = True
+            except Exception as exc:
+                rec['raised'] = [_exc_name(exc), str(exc)[:160]]
+            if batch is not None:
+                for sim in batch:
+                    rec['mem'].append(norm_splitting(sim.results))
+    finally:
+        sys.stdout = old_stdout
+        _np.random.set_state(state)
+    batch = None
+    E.settle()
+    return rec
+
+
+def norm_splitting(res):
+    return {'n_runs': int(res.get('n_runs', -1)),
+            'lists': [[float(x) for x in chain] for chain in res.get('log_p_errors', [])]}
+
+
+def load_splitting(root, container):
+    p = os.path.join(root, out_name(container))
+    if not os.path.exists(p):
+        return None
+    with E.real_open(p, 'rb') as fh:
+        recs = ref_load(fh.read(), container)
+    return [{'rates': [float(x) for x in r['inputs'].get('error_rates', [])],
+             'method': r['inputs'].get('method', {}).get('name'), **norm_splitting(r['results'])} for r in recs]
+
+
+def judge_splitting(rates, n, recs, saved, rec):
+    """After a run to `n` that returned normally: one record, n_runs == n, one list per rate, each n long; what
+    the last completed save held is an unchanged prefix and was not executed again."""
+    V = []
+    if recs is None or len(recs) != 1:
+        return [('length-mismatch', None, {'message': 'expected one splitting record in the file',
+                                           'records': None if recs is None else len(recs)})]
+    r = recs[0]
+    lens = [len(x) for x in r['lists']]
+    if sorted(r['rates']) != sorted(float(x) for x in rates) or r['method'] != 'splitting':
+        V.append(('wrong-identity', None, {'recorded_rates': r['rates'], 'specified': list(rates)}))
+    if r['n_runs'] != n or len(lens) != len(rates) or any(x != n for x in lens):
+        V.append(('length-mismatch', None, {'n_runs': r['n_runs'], 'list_lengths': lens, 'requested': n,
+                                            'error_rates': len(rates)}))
+        return V
+    if rec['mem'] and (rec['mem'][0]['n_runs'] != r['n_runs'] or rec['mem'][0]['lists'] != r['lists']):
+        V.append(('duplicated', None, {'message': 'final file differs from the lists in memory at exit'}))
+    if saved:
+        l0 = min([len(x) for x in saved[0]['lists']] or [0])
+        e = rec['executed'][0] if rec['executed'] else 0
+        if n - e < l0:
+            V.append(('lost-trials', None, {'in_last_completed_save': l0, 'kept': max(n - e, 0),
+                                            'executed_by_restart': e, 'requested': n}))
+        elif any(a[:l0] != b[:l0] for a, b in zip(r['lists'], saved[0]['lists'])):
+            V.append(('lost-trials', None, {'message': 'saved prefix changed', 'in_last_completed_save': l0}))
+    return V
+
+
+def _eval_splitting(case, sb):
+    """Splitting-method batches (1, 2, 3 error rates): run to n1 (complete, and stopped after every trial),
+    restart to n2 with fresh objects."""
+    acc = _Acc(case)
+    container, f = case['container'], case['save_frequency']
+    x = acc.res['extra']
+    x['splitting_restart_raised'] = 0
+    for rates in case['rates']:
+        for (n1, n2) in case['n_pairs']:
+            for stop_after in [None] + list(range(1, n1)):
+                d = sb.fresh({})
+                rec1 = run_splitting(d, container, rates, n1, f, seed=1000 + n1, stop_after=stop_after)
+                acc.res['evals'] += 1
+                x['stop_points'] += 1
+                hist = {'error_rates': rates, 'n1': n1, 'n2': n2, 'method': 'splitting',
+                        'stopped_after_trials': stop_after}
+                if rec1['raised'] is not None:
+                    acc.add('first-run-raises', 'none', rec1['raised'][0], f,
+                            {'message': rec1['raised'][1], 'history': hist})
+                    sb.drop(d)
+                    continue
+                try:
+                    saved = load_splitting(d, container)
+                except Exception as exc:
+                    acc.add('final-unreadable', 'none', type(exc).__name__, f, {'history': hist})
+                    sb.drop(d)
+                    continue
+                if stop_after is None:
+                    for kind, exc, detail in judge_splitting(rates, n1, saved, None, rec1):
+                        acc.add(kind, 'none', exc, f, dict(detail, history=hist, run='uninterrupted first run'))
+                acc.states.add((len(rates), n1, n2, stop_after))
+                rec2 = run_splitting(d, container, rates, n2, f, seed=2000 + n2)     # fresh objects, same file
+                x['restarts'] += 1
+                if rec2['raised'] is not None:
+                    x['splitting_restart_raised'] += 1
+                    acc.outcomes.add('splitting|%d rates|restart-raises:%s' % (len(rates), rec2['raised'][0]))
+                    if SPLITTING_RESTART_RAISES_IS_VIOLATION:
+                        acc.add('restart-raises', 'between-trials', rec2['raised'][0], f,
+                                {'message': rec2['raised'][1], 'history': hist})
+                else:
+                    try:
+                        final = load_splitting(d, container)
+                        viol = judge_splitting(rates, n2, final, saved, rec2)
+                    except Exception as exc:
+                        viol = [('final-unreadable', type(exc).__name__, {})]
+                    acc.outcomes.add('splitting|%d rates|%s' % (len(rates), 'ok' if not viol else viol[0][0]))
+                    for kind, exc, detail in viol:
+                        acc.add(kind, 'between-trials', exc, f, dict(detail, history=hist, run='restart'))
+                if not acc.res['samples']:
+                    acc.res['samples'] = [{'family': 'splitting', 'container': container, 'save_frequency': f,
+                                           'history': hist, 'file_after_run1': None if not saved else
+                                           {'n_runs': saved[0]['n_runs'],
+                                            'list_lengths': [len(c) for c in saved[0]['lists']]},
+                                           'restart_raised': rec2['raised']}]
+                sb.drop(d)
     return acc.finish()
 
 
